@@ -122,7 +122,13 @@ func newAccrualFailureDetector(
 
 // Report reports a message was received from the node with the given ID.
 func (d *accrualFailureDetector) Report(nodeID string) {
-	d.ReportWithTimestamp(nodeID, time.Now())
+	d.mu.Lock()
+	defer d.mu.Unlock()
+
+	// Take the timestamp while holding the lock so arrival timestamps for a
+	// node are ordered, otherwise a delayed report could add a negative
+	// interval.
+	d.reportLocked(nodeID, time.Now())
 }
 
 // ReportWithTimestamp reports a message was received from the node with the
@@ -134,6 +140,10 @@ func (d *accrualFailureDetector) ReportWithTimestamp(
 	d.mu.Lock()
 	defer d.mu.Unlock()
 
+	d.reportLocked(nodeID, timestamp)
+}
+
+func (d *accrualFailureDetector) reportLocked(nodeID string, timestamp time.Time) {
 	window, ok := d.windows[nodeID]
 	if !ok {
 		window = newArrivalWindow(d.bootstrapInterval, d.sampleSize)
@@ -148,7 +158,11 @@ func (d *accrualFailureDetector) ReportWithTimestamp(
 // The higher the suspicion level, the more likely the node is to be
 // unreachable.
 func (d *accrualFailureDetector) SuspicionLevel(nodeID string) float64 {
-	return d.SuspicionLevelAt(nodeID, time.Now())
+	d.mu.Lock()
+	defer d.mu.Unlock()
+
+	// Take the timestamp while holding the lock (see Report).
+	return d.suspicionLevelLocked(nodeID, time.Now())
 }
 
 // SuspicionLevelAt returns the 'phi' value indicating the suspicion level of
@@ -160,6 +174,10 @@ func (d *accrualFailureDetector) SuspicionLevelAt(nodeID string, timestamp time.
 	d.mu.Lock()
 	defer d.mu.Unlock()
 
+	return d.suspicionLevelLocked(nodeID, timestamp)
+}
+
+func (d *accrualFailureDetector) suspicionLevelLocked(nodeID string, timestamp time.Time) float64 {
 	window, ok := d.windows[nodeID]
 	if !ok {
 		// If we have never received any heartbeats from the node, start by
